@@ -282,6 +282,75 @@ def translate_io_counters(tree):
     return keys, seps, fields
 
 
+def _is_name(node, ident):
+    import ast
+    return isinstance(node, ast.Name) and node.id == ident
+
+
+def _int_of_value(node):
+    import ast
+    return (isinstance(node, ast.Call) and _is_name(node.func, "int") and len(node.args) == 1 and not node.keywords
+            and _is_name(node.args[0], "value"))
+
+
+def _lstmts(stmts):
+    """statements of the `for line in f:` body of io_counters -> Gallina list of coq/C14/PyLoop.v lstmt"""
+    import ast
+    out = []
+    for st in stmts:
+        if (_assign_to(st, "line") and isinstance(st.value, ast.Call) and isinstance(st.value.func, ast.Attribute)
+                and st.value.func.attr == "strip" and _is_name(st.value.func.value, "line") and not st.value.args
+                and not st.value.keywords):
+            out.append("LStrip")
+        elif isinstance(st, ast.If) and _is_name(st.test, "line") and not st.orelse:
+            out.append("LIfLine %s" % _lstmts(st.body))
+        elif (isinstance(st, ast.Try) and not st.finalbody and len(st.handlers) == 1
+              and _is_name(st.handlers[0].type, "ValueError") and st.handlers[0].name is None
+              and len(st.handlers[0].body) == 1 and isinstance(st.handlers[0].body[0], ast.Continue)):
+            out.append("LTry %s %s" % (_lstmts(st.body), _lstmts(st.orelse)))
+        elif (isinstance(st, ast.Assign) and len(st.targets) == 1 and isinstance(st.targets[0], ast.Tuple)
+              and [getattr(e, "id", None) for e in st.targets[0].elts] == ["name", "value"]
+              and isinstance(st.value, ast.Call) and isinstance(st.value.func, ast.Attribute) and st.value.func.attr == "split"
+              and _is_name(st.value.func.value, "line") and len(st.value.args) == 1 and not st.value.keywords
+              and isinstance(st.value.args[0], ast.Constant) and isinstance(st.value.args[0].value, bytes)):
+            out.append("LSplit2 %s" % G.by(st.value.args[0].value))
+        elif _assign_to(st, "value") and _int_of_value(st.value):
+            out.append("LIntValue")
+        elif (isinstance(st, ast.Assign) and len(st.targets) == 1 and isinstance(st.targets[0], ast.Subscript)
+              and _is_name(st.targets[0].value, "fields") and _is_name(st.targets[0].slice, "name")
+              and (_is_name(st.value, "value") or _int_of_value(st.value))):
+            out.append("LStore %s" % G.bo(_int_of_value(st.value)))
+        else:
+            raise TranslateError("io_counters loop: statement not understood: " + ast.dump(st)[:300])
+    return "[%s]" % "; ".join("(%s)" % o if " " in o else o for o in out)
+
+
+def translate_io_loop(tree):
+    """The body of `for line in f:` of Process.io_counters, and the fact that an empty `fields` raises RuntimeError."""
+    import ast
+    fn = None
+    for node in ast.walk(tree):
+        if isinstance(node, ast.ClassDef) and node.name == "Process":
+            for sub in ast.walk(node):
+                if isinstance(sub, ast.FunctionDef) and sub.name == "io_counters":
+                    fn = sub
+    if fn is None:
+        raise TranslateError("Process.io_counters not found")
+    loops = [n for n in ast.walk(fn) if isinstance(n, ast.For)]
+    if len(loops) != 1 or not _is_name(loops[0].target, "line") or not _is_name(loops[0].iter, "f") or loops[0].orelse:
+        raise TranslateError("io_counters: expected exactly one `for line in f:` loop")
+    withs = [n for n in ast.walk(fn) if isinstance(n, ast.With)]
+    if (len(withs) != 1 or loops[0] not in withs[0].body or len(withs[0].body) != 1 or len(withs[0].items) != 1
+            or not isinstance(withs[0].items[0].context_expr, ast.Call)
+            or not _is_name(withs[0].items[0].context_expr.func, "open_binary")
+            or not _is_name(withs[0].items[0].optional_vars, "f")):
+        raise TranslateError("io_counters: the loop is not the only statement of `with open_binary(fname) as f:`")
+    inits = [n for n in fn.body if _assign_to(n, "fields")]
+    if len(inits) != 1 or not (isinstance(inits[0].value, ast.Dict) and not inits[0].value.keys):
+        raise TranslateError("io_counters: `fields = {}` not found")
+    return _lstmts(loops[0].body)
+
+
 def gen_tables(impl_dir, out_dir):
     """Translate file_flags_to_mode and the constants of Process.io_counters of the tree under check into
     coq/Gen/C14_Tables.v.  coq/C14/ProofsGen.v proves the translated program equal to the model on every flag word
@@ -294,10 +363,12 @@ def gen_tables(impl_dir, out_dir):
         raise TranslateError("file_flags_to_mode: %d module-level definitions" % len(fns))
     prog = translate_file_flags_to_mode(fns[0])
     keys, sep, fields = translate_io_counters(tree)
+    loop = translate_io_loop(tree)
     txt = "\n".join([
         "(* GENERATED by props/C14.py (gen_tables) from psutil/_pslinux.py of the tree under check -- do not edit. *)",
-        "From PV Require Import C14.PyMini.", "",
+        "From PV Require Import C14.PyMini C14.PyLoop.", "",
         "Definition gen_mode_prog : prog :=\n  %s." % prog, "",
+        "Definition gen_io_loop : lprog :=\n  %s." % loop, "",
         "Definition gen_pio_keys : list bytes :=\n  [%s]." % "; ".join(G.by(k) for k in keys),
         "Definition gen_io_sep : bytes := %s." % G.by(sep),
         "Definition gen_pio_fields : list bytes :=\n  [%s]." % "; ".join(G.by(f) for f in fields), ""])
